@@ -32,6 +32,7 @@ type c07In struct {
 	hErr    bool
 	collide bool
 	decoy   bool
+	empty   bool
 }
 
 var c07Progs = []string{"nothing", "reply-result", "reply-error", "reply-emptyns", "other-id", "get-same-id", "set-same-id", "msg-then-reply", "reply-then-msg", "nested-iq", "presence-then-error-reply", "message-same-id-ns", "presence-same-id-ns", "reply-result", "reply-error"}
@@ -74,7 +75,8 @@ func runC07(rc *RC) {
 			in.id = ""
 		}
 		if ch.Chance("workload", 1, 2) {
-			in.from = "other@example.net/r"
+			// another entity, another resource of our own account, or our own account's bare address
+			in.from = []string{"other@example.net/r", "other@example.net/r", e.Local.Bare().String() + "/laptop", "example.net"}[ch.Int("workload", 4)]
 		}
 		if ch.Chance("workload", 1, 3) {
 			in.payload = "z"
@@ -113,7 +115,17 @@ func runC07(rc *RC) {
 				}
 			}
 		}
-		fmt.Fprintf(&sb, `><%s xmlns="urn:verif" n="%d"><c/>text</%s></%s>`, in.payload, i, in.payload, in.kind)
+		if in.kind == "iq" && ch.Chance("workload", 1, 10) {
+			// an IQ without any payload (not valid for get/set, but it is what arrived and it has an id)
+			in.empty = true
+			if ch.Chance("workload", 1, 2) {
+				sb.WriteString("/>")
+			} else {
+				fmt.Fprintf(&sb, "></%s>", in.kind)
+			}
+		} else {
+			fmt.Fprintf(&sb, `><%s xmlns="urn:verif" n="%d"><c/>text</%s></%s>`, in.payload, i, in.payload, in.kind)
+		}
 		in.xml = sb.String()
 		ins = append(ins, in)
 	}
@@ -268,6 +280,14 @@ func runC07(rc *RC) {
 	default:
 		handler = mux.New(e.NS)
 	}
+	// every top-level element leads to exactly one invocation (C08), so the k-th invocation belongs to the k-th
+	// incoming element: when Serve ends with an error the stream was terminated while handling that one
+	invocations := 0
+	inner := handler
+	handler = xmpp.HandlerFunc(func(t xmlstream.TokenReadEncoder, start *xml.StartElement) error {
+		invocations++
+		return inner.HandleXMPP(t, start)
+	})
 	e.Serve(handler)
 
 	var reqErr error
@@ -349,6 +369,9 @@ func runC07(rc *RC) {
 		}
 		if errAt >= 0 && in.idx >= errAt {
 			continue // c4: the stream was terminated with a stream error
+		}
+		if e.ServeDone && e.ServeErr != nil && in.idx >= invocations-1 {
+			continue // c4: Serve ended with an error (a stream error was sent) while handling this element or before reaching it
 		}
 		rs := replies[in.id]
 		needs := in.kind == "iq" && (in.typ == "get" || in.typ == "set")
